@@ -188,6 +188,26 @@ def check_channel(rec, mode, ch, t, vals, n, p, windows, slices, idxs, raw_ts, s
         if msgs:
             rec.violation('index:' + mode, msgs[0])
             return
+        # windows and slices around the element just looked up (an integer index may leave a cached chunk behind)
+        k = i % n
+        for (o, l) in ((k, None), (k, 1), (max(k - 1, 0), None), (k + 1, None), (0, None), (k, 2)):
+            want = slice_vals(t, vals, slice(o, None if l is None else o + l))
+            ok, got = rec.guard('window_after_index:' + mode, lambda: ch.read_data(o, l))
+            if not ok:
+                return
+            msgs = compare_values(t, want, got, '%s %s.read_data(%r,%r) right after %s[%d], len=%d' % (mode, p, o, l, p, i, n), raw_ts)
+            if msgs:
+                rec.violation('window_after_index:' + mode, msgs[0])
+                return
+        for (a, b, s) in ((k, None, None), (None, k + 1, None), (k, None, 2), (None, None, -1)):
+            want = slice_vals(t, vals, slice(a, b, s))
+            ok, got = rec.guard('slice_after_index:' + mode, lambda: ch[a:b:s])
+            if not ok:
+                return
+            msgs = compare_values(t, want, got, '%s %s[%r:%r:%r] right after %s[%d], len=%d' % (mode, p, a, b, s, p, i, n), raw_ts)
+            if msgs:
+                rec.violation('slice_after_index:' + mode, msgs[0])
+                return
 
 
 @st.composite
